@@ -36,7 +36,12 @@ def thorough_mutants(pid, rep):
         r = subprocess.run([os.path.join(V, "tools", "try_patch.sh"), patch, pid], stdout=subprocess.PIPE, stderr=subprocess.STDOUT, text=True)
         det = "VIOLATION property=%s" % pid in r.stdout
         err = "CHECKER-ERROR" in r.stdout
-        verdict = "detected" if det else ("checker-error" if err else "missed")
+        stale = "try_patch: patch failed" in r.stdout
+        verdict = "detected" if det else ("checker-error" if err else ("patch-does-not-apply" if stale else "missed"))
+        if stale:
+            # the tree has moved on (a later repair touched the same lines): the regression cannot be
+            # replayed; reported, not counted as a failure of the check
+            exp = "n/a"
         res.append({"change": name, "expected": exp, "verdict": verdict})
         print("%s thorough: regression %-40s expected=%-6s %s" % (pid, name, exp, verdict))
         if exp == "detect" and not det:
